@@ -35,7 +35,10 @@ var newEmptyMap = map[DataType]func(size uint16) interface{}{
 
 // newEmpty returns pointer to new interface of the expected go type
 func (d DataType) newEmpty(s uint16) interface{} {
-	return newEmptyMap[d](s)
+	if newEmpty, known := newEmptyMap[d]; known {
+		return newEmpty(s)
+	}
+	return nil
 }
 
 // returns pointer to new interface of the expected go type with the provided value
